@@ -12,6 +12,8 @@ for f in glob.glob(V + "/replays/*.json"):
         continue
     if "case" not in d or "property" not in d:
         continue
+    if d.get("build") == "release+shuttle":
+        continue  # cases of the scheduler harness (harness/sched) have their own format and binary
     key = (d["property"], d.get("signature", ""))
     size = os.path.getsize(f)
     if key not in best or size < best[key][0]:
